@@ -212,7 +212,37 @@ func self() string {
 	return p
 }
 
+// maxRSS: a child whose resident set grows beyond this is killed (the sandbox has no memory
+// limit of its own, and a changed library may grow without bound).
+func maxRSSBytes() int64 {
+	mb := int64(6144)
+	if v, err := strconv.ParseInt(os.Getenv("VERIF_MAX_RSS_MB"), 10, 64); err == nil && v > 0 {
+		mb = v
+	}
+	return mb << 20
+}
+
+func rssOf(pid int) int64 {
+	b, err := os.ReadFile(fmt.Sprintf("/proc/%d/statm", pid))
+	if err != nil {
+		return 0
+	}
+	f := strings.Fields(string(b))
+	if len(f) < 2 {
+		return 0
+	}
+	pages, _ := strconv.ParseInt(f[1], 10, 64)
+	return pages * int64(os.Getpagesize())
+}
+
 func execSelf(timeout time.Duration, env []string, args ...string) ([]byte, []byte, int) {
+	return execSelfWatched(timeout, "", 0, env, args...)
+}
+
+// execSelfWatched also kills the child when its RSS explodes, or when the journal file it
+// rewrites at the start of every plan has not changed for `stall`.
+// Exit codes: 124 wall-clock watchdog, 125 memory watchdog, 126 stalled on one plan.
+func execSelfWatched(timeout time.Duration, journal string, stall time.Duration, env []string, args ...string) ([]byte, []byte, int) {
 	cmd := exec.Command(self(), args...)
 	cmd.Env = append(os.Environ(), env...)
 	var so, se bytes.Buffer
@@ -222,19 +252,39 @@ func execSelf(timeout time.Duration, env []string, args ...string) ([]byte, []by
 	}
 	done := make(chan error, 1)
 	go func() { done <- cmd.Wait() }()
-	select {
-	case err := <-done:
-		if err != nil {
-			if ee, ok := err.(*exec.ExitError); ok {
-				return so.Bytes(), se.Bytes(), ee.ExitCode()
+	deadline := time.After(timeout)
+	tick := time.NewTicker(300 * time.Millisecond)
+	defer tick.Stop()
+	limit := maxRSSBytes()
+	started := time.Now()
+	for {
+		select {
+		case err := <-done:
+			if err != nil {
+				if ee, ok := err.(*exec.ExitError); ok {
+					return so.Bytes(), se.Bytes(), ee.ExitCode()
+				}
+				return so.Bytes(), se.Bytes(), 2
 			}
-			return so.Bytes(), se.Bytes(), 2
+			return so.Bytes(), se.Bytes(), 0
+		case <-deadline:
+			cmd.Process.Kill()
+			<-done
+			return so.Bytes(), append(se.Bytes(), []byte("\nwatchdog: killed after "+timeout.String())...), 124
+		case <-tick.C:
+			if rss := rssOf(cmd.Process.Pid); rss > limit {
+				cmd.Process.Kill()
+				<-done
+				return so.Bytes(), append(se.Bytes(), []byte(fmt.Sprintf("\nwatchdog: killed, resident set %d MB exceeds %d MB", rss>>20, limit>>20))...), 125
+			}
+			if journal != "" && stall > 0 && time.Since(started) > stall {
+				if fi, err := os.Stat(journal); err == nil && time.Since(fi.ModTime()) > stall {
+					cmd.Process.Kill()
+					<-done
+					return so.Bytes(), append(se.Bytes(), []byte("\nwatchdog: killed, one plan ran longer than "+stall.String())...), 126
+				}
+			}
 		}
-		return so.Bytes(), se.Bytes(), 0
-	case <-time.After(timeout):
-		cmd.Process.Kill()
-		<-done
-		return so.Bytes(), append(se.Bytes(), []byte("\nwatchdog: killed after "+timeout.String())...), 124
 	}
 }
 
@@ -390,7 +440,7 @@ func drive(cfg driveCfg) int {
 			if cfg.tier == "thorough" {
 				to = cfg.budget + 20*time.Minute
 			}
-			_, se, code := execSelf(to, workerEnv(cfg, w), args...)
+			_, se, code := execSelfWatched(to, filepath.Join(cfg.workdir, fmt.Sprintf("journal-%d.json", w)), 3*time.Minute, workerEnv(cfg, w), args...)
 			codes[w], stderrs[w] = code, se
 			if b, err := os.ReadFile(out); err == nil {
 				json.Unmarshal(b, &outs[w])
@@ -401,15 +451,14 @@ func drive(cfg driveCfg) int {
 	exploreWall := time.Since(exploreStart)
 
 	var all []Violation
+	var deadWorkers []string
 	for w := 0; w < cfg.workers; w++ {
 		if codes[w] != 0 {
-			// a worker that dies is machinery trouble unless the engine explains it (C13: race runtime exit)
-			if v := explainWorkerDeath(cfg, w, codes[w], stderrs[w]); v != nil {
-				all = append(all, *v)
-				continue
-			}
-			fmt.Printf("MACHINERY: worker %d exited %d: %s %s\n", w, codes[w], outs[w].Error, tail(stderrs[w], 2000))
-			return 2
+			// A worker that dies (crash in the library under test, memory or time watchdog) yields no
+			// verdict by itself.  The others' findings still count; with none, the check exits 2.
+			msg := fmt.Sprintf("worker %d exited %d: %s %s", w, codes[w], outs[w].Error, tail(stderrs[w], 1500))
+			fmt.Printf("# WARNING: %s\n", msg)
+			deadWorkers = append(deadWorkers, msg)
 		}
 	}
 
@@ -505,6 +554,7 @@ func drive(cfg driveCfg) int {
 		"determinism_selftest":   st,
 		"violations_reported":    reported,
 		"unconfirmed_classes":    unconfirmed,
+		"dead_workers":           deadWorkers,
 		"real_components":        realComponents,
 		"simulated_components":   simulatedComponents[cfg.prop],
 		"uncontrolled":           uncontrolled[cfg.prop],
@@ -537,6 +587,10 @@ func drive(cfg driveCfg) int {
 		cfg.prop, cfg.tier, tot.Runs, tot.Evals, distinctNT, nViol, nKnown, wall, float64(tot.Runs)/exploreWall.Hours())
 	if tot.Runs == 0 || distinctNT < 2 {
 		fmt.Println("MACHINERY: nothing non-trivial was explored")
+		return 2
+	}
+	if exit == 0 && len(deadWorkers) > 0 {
+		fmt.Printf("MACHINERY: %d worker(s) died and no violation was confirmed: %s\n", len(deadWorkers), deadWorkers[0])
 		return 2
 	}
 	if exit == 0 && nKnown == 0 && len(unconfirmed) > 0 {
@@ -600,7 +654,13 @@ func readInstrReport(path string) interface{} {
 	return v
 }
 
+// minimisation budget of one check invocation (all violation classes together)
+var minimiseDeadline time.Time
+
 func minimiseAndConfirm(cfg driveCfg, eng *Engine, v Violation) (Violation, bool, string) {
+	if minimiseDeadline.IsZero() {
+		minimiseDeadline = time.Now().Add(150 * time.Second)
+	}
 	if v.Oracle == historyOracle[cfg.prop] && v.Oracle != "" {
 		if len(v.Prefix) == 0 && v.NShards > 0 {
 			for i := v.Shard; i < v.Idx; i += v.NShards {
@@ -637,10 +697,13 @@ func minimiseAndConfirm(cfg driveCfg, eng *Engine, v Violation) (Violation, bool
 		return v, false, fmt.Sprintf("single plan: %v", err)
 	}
 	note := "not minimised"
+	if time.Now().After(minimiseDeadline) {
+		return *orig, true, "confirmed in a fresh process; not minimised (the minimisation budget of this run was used up by earlier classes)"
+	}
 	if eng.Shrink != nil {
 		t0 := time.Now()
 		min := eng.Shrink(v.Plan, v, func(c []byte) *Violation {
-			if time.Since(t0) > 90*time.Second {
+			if time.Since(t0) > 60*time.Second || time.Now().After(minimiseDeadline) {
 				return nil
 			}
 			return fails(c)
